@@ -190,7 +190,7 @@ class World(object):
         pend = tuple(sorted(tm.transactions)) if isinstance(tm.transactions, dict) else len(tm.transactions)
         return (self.connected, self.closed_locally, self.partial is not None, self.partial_used, getattr(self.p, '_connected', None), tm.tid, pend,
                 tuple((r['wire_tid'], tuple(r['events']), r['after_loss'], i in self.delivered, r.get('retry', False), r.get('kept', False), r.get('again', False), r.get('cancelled', False)) for i, r in enumerate(self.reqs)),
-                framers.buffered(self.p.framer), framers.snapshot(self.p.framer), len(self.escaped))
+                framers.buffer_bytes(self.p.framer), len(self.escaped))
 
 
 def menu(w, max_out, max_req):
